@@ -10,6 +10,7 @@ import (
 	"testing"
 
 	"github.com/theory/sqljson/path"
+	"github.com/theory/sqljson/path/exec"
 	"pgregory.net/rapid"
 )
 
@@ -379,6 +380,54 @@ func arraysOver(alpha []string, maxLen int) []string {
 	return out
 }
 
+// WrapChainCase: a subscript list applied to a non-array (lax mode: a one-element array made for the occasion),
+// followed by steps that wrap values of their own. Every subscript of the list selects from the same wrapped
+// value, whatever the steps behind it do.
+type WrapChainCase struct {
+	Path string `json:"path"`
+	Doc  string `json:"doc"`
+}
+
+var checkWrapChain = register("c14.wrapchain", func(c WrapChainCase) *Violation {
+	p, err, pan := ParseSafe(c.Path)
+	if err != nil || pan != "" {
+		return violf("harness: %q does not parse: %v%s", c.Path, err, pan)
+	}
+	doc, derr := Decode(c.Doc, false)
+	if derr != nil {
+		return nil
+	}
+	vars := map[string]any{"v": doc}
+	d19 := false
+	if c14Ev != nil {
+		d19 = c14Ev.quirk("subscript_drops_null")
+	}
+	mr := RunModel(PathFromAST(p.AST), doc, Opts{}, vars, d19)
+	if mr.Err != nil && mr.Err.dontCare {
+		return nil
+	}
+	got := RunQuery(context.Background(), p, doc, exec.WithVars(exec.Vars(vars)))
+	if got.Panic != "" {
+		return violf("Query(%q) on %s panicked: %s", c.Path, c.Doc, got.Panic)
+	}
+	wantClass := EOK
+	if mr.Err != nil {
+		wantClass = ESupp
+		if mr.Err.hard {
+			wantClass = EHard
+		}
+	}
+	if got.Class != wantClass {
+		return violf("Query(%q) on %s: the subscript rules give class %s and %v, Query returned %s", c.Path, c.Doc, wantClass, mRenderSeq(mr.Items), got)
+	}
+	if wantClass == EOK {
+		if w, g := mRenderSeq(mr.Items), RenderSeq(got.Items, true); !sameSeq(w, g) {
+			return violf("Query(%q) on %s: each subscript of the list selects from the same value (a non-array is a one-element array in lax mode): want %v, Query returned %v", c.Path, c.Doc, w, g)
+		}
+	}
+	return nil
+})
+
 func TestC14(t *testing.T) {
 	ev := newEv(t, "C14")
 	c14Ev = ev
@@ -451,6 +500,35 @@ func TestC14(t *testing.T) {
 			}
 		}
 		ev.Exhaustive("arrays_len_0_to_4_by_subscript_lists_by_mode", int64(i))
+	})
+	t.Run("lists_on_non_arrays_followed_by_wrapping_steps", func(t *testing.T) {
+		b := ev.enum(t)
+		starts := []string{"$", "$.o", "$v", "$.o.b", "$[0]"}
+		lists := []string{"[0, 0]", "[0, last]", "[last, 0, 0]", "[0 to last, 0]", "[$.i[0]]", "[0, $.i[0]]", "[$.i[0], $.i[0]]", "[0 to $.i[last]]", "[0, 0 ? (@[0] == 0)]", "[0]", "[last - $.i[0], 0]"}
+		tails := []string{"", ".a[0]", "[0]", "[0][0]", ".a[0, 0]", " ? (@[0] == @[last])", ".a[last]", "[0].a", ".b[0].c[0]", ".a[0 to last]", " ? (@.a[0] > 1).a[0]", ".b[0, 0].c", ".*[0]", ".a.size()", "[0, 0]", " ? (exists(@.b[0].c[0]))"}
+		docs := []string{`{"a":5,"i":0,"b":{"c":7},"o":{"a":6,"b":{"c":8}}}`, `5`, `{"a":[5,6],"i":[0,0],"b":[{"c":[7]}],"o":{"a":[1,2],"i":0}}`, `[{"a":5,"i":0,"b":{"c":7}}]`, `{"a":null,"i":0,"o":null}`}
+		i := 0
+		for _, st := range starts {
+			for _, l := range lists {
+				for _, tl := range tails {
+					for _, d := range docs {
+						for _, md := range []string{"", "strict "} {
+							i++
+							if !mine(i) {
+								continue
+							}
+							c := WrapChainCase{Path: md + st + l + tl, Doc: d}
+							ev.Eval(c.Path+"\x00"+c.Doc, md == "" && tl != "")
+							ev.Sample("wrapchain", c)
+							if !b.Check("c14.wrapchain", c, checkWrapChain(c)) {
+								return
+							}
+						}
+					}
+				}
+			}
+		}
+		ev.Exhaustive("subscript_lists_on_non_arrays_by_following_steps_by_documents_by_mode", int64(i))
 	})
 	ev.rapidProp(t, "random", func(rt *rapid.T) {
 		n := rapid.IntRange(0, 12).Draw(rt, "len")
